@@ -23,6 +23,20 @@ CLAIMS = {
         "note": "Trusted: z3 FP theory, E2 encoder (validated natively on sampled paths). The oracle for LINEAR/RAT_FUNC is compared bit-exactly (see assumptions in the evidence). Outside: the dispatch from objects to data types/conversions (C11 harnesses), NaN/infinite coefficients.",
         "technique": "SMT (z3 FP theory) over symbolically executed MIR, native replay",
     },
+    "C15": {
+        "engine": "E2-mirsym",
+        "text": "Induction on one call: from an arbitrary pre-state (placed elements with arbitrary distinct u32 position ids, new elements with id 0; <= 3 items per list, two kinds, optional singletons) one call of the real sort_new_items / sort_objectlist_new is executed symbolically; the relative order of placed elements under the writer's order is unchanged, each new element sits directly after the last placed one of its kind, and no arithmetic overflow is reachable - except the recorded known finding D7 (ids >= 2^31).",
+        "design_ref": "DESIGN.md section 4 C15",
+        "note": "Trusted: E2 std models (sort_by = stable insertion sort calling the real comparator), z3. Outside: more than 3 items per list, the textual output. Known finding D7 is listed in known_findings.json and demonstrated by a twin harness on every run.",
+        "technique": "SMT-based bounded symbolic execution of MIR (z3), one inductive step over symbolic u32 ids, native replay",
+    },
+    "C14": {
+        "engine": "E2-mirsym",
+        "text": "sort_objectlist_full and sort() executed symbolically on small modules with symbolic names and previous ids: same elements with equal content, lists ordered by name, ids consecutive in the documented kind order, name index rebuilt, second sort is the identity.",
+        "design_ref": "DESIGN.md section 4 C14",
+        "note": "Trusted: E2 std models, generated PartialEq impls are executed from MIR. Outside: text output and reload, modules larger than the stated shape.",
+        "technique": "SMT-based bounded symbolic execution of MIR (z3), native replay",
+    },
 }
 
 _PENDING = "check not built yet in this revision of /verif (see DESIGN.md section 7 for the order of work)"
